@@ -7,6 +7,9 @@ PROP = "C25"
 
 
 class PEAllocH(MethodHarness):
+    def nonexclusive_ports(self):
+        return {"clear"}      # PriorityEncoderAllocator.peek is an ordinary (exclusive) method
+
     def make(self):
         from transactron.lib.allocators import PriorityEncoderAllocator
         c = self.cfg
